@@ -49,3 +49,11 @@ Print Assumptions C12_head_shape.
 Theorem C12_upstream_query_same : forall q, pct_decode (to_pct QUERY_KEEP q) = pct_decode q.
 Proof. exact upstream_query_same. Qed.
 Print Assumptions C12_upstream_query_same.
+
+(* whatever the upstream sends back meanwhile (its response head before the request body is complete, ...): the request stream
+   it receives is the one it would have received had it stayed silent - so C12_body_in_order holds with answers interleaved anywhere *)
+Theorem C12_upstream_answers_do_not_matter : forall head ops,
+  u_sent (up_run head ops) = u_sent (up_run head (filter (fun o => match o with UAnswer => false | _ => true end) ops)) /\
+  u_pending (up_run head ops) = u_pending (up_run head (filter (fun o => match o with UAnswer => false | _ => true end) ops)).
+Proof. exact upstream_answers_do_not_matter. Qed.
+Print Assumptions C12_upstream_answers_do_not_matter.
